@@ -408,6 +408,402 @@ def compare(case, ob, mline):
     return diffs
 
 
+# ---------------------------------------------------------------------------------------------
+# guard stream: the overwrite guards of lbuf_save for every combination of
+#   {own name absent / present at load} x {regular file, symbolic link, chain of links, dangling link, link loop}
+#   x {last in step with the directory by reading / by a successful :w}
+#   x {foreign writer between that moment and the command: nothing, write through the name, rename over the name,
+#      rename over / write to / unlink of the real file behind a link, touch, unlink, unlink + create; stamps older /
+#      epoch / newer}  x {w, w!, wq, x, xa (wq!, xa!)},  plus :w / :w! of another name (absent, existing, epoch, link,
+#      dangling link, created meanwhile, the real file behind the edited link).
+# No fault injection.  The foreign writer runs from inside the session (`:w !sh aK.sh`), so it lands exactly between
+# two commands; every time stamp is set with `touch -d @N` (whole seconds; `newer` lies in the future, so it is later
+# than anything the editor writes during the run).  Right after loading, after every :w of the session and right
+# before the command under test a snapshot (`:w !sh s.sh TAG`: stat -L of the names, their contents, a copy of the
+# directory with links kept) is taken: the oracle is the property on those observables.  The model side is the `gs`
+# request of the driver (coq/IoLinkDefs.v: ec_edit_l, ec_write_l, ec_quit_l, foreign).
+
+GN = ['f', 't', 'r', 'l1', 'tr']                  # names of a guard case; the model calls them 0..4
+GC0 = b'one\ntwo\n'
+GFOREIGN = b'FOREIGN DATA\n' * 3
+G_MODEL_STAMP = {'older2': 40, 'older': 50, 'old': 100, 'newer': 300, 'newer2': 400, 'epoch': 0}     # the editor writes at 200
+
+
+def g_real_stamp(sym, base):
+    return {'older2': base - 10000, 'older': base - 8000, 'old': base - 5000, 'newer': base + 5000, 'newer2': base + 6000, 'epoch': 0}[sym]
+
+
+def g_act_content(k):
+    return b'foreign %d\n' % k * 3
+
+
+def g_layout(case):
+    """(links: name -> name, files: name -> (content, stamp symbol)) at the start of the session"""
+    links, files = {}, {}
+    lay = case['layout']
+    if lay == 'reg':
+        real = 'f'
+    elif lay == 'link':
+        links['f'] = 'r'
+        real = 'r'
+    elif lay == 'chain':
+        links['f'] = 'l1'
+        links['l1'] = 'r'
+        real = 'r'
+    else:                                          # loop
+        links['f'] = 'f'
+        real = None
+    if case['own'] == 'present' and real:
+        files[real] = (GC0, 'old')
+    tl = case.get('tlayout', 'absent')
+    if tl == 'reg':
+        files['t'] = (GFOREIGN, 'older2')
+    elif tl == 'epoch':
+        files['t'] = (GFOREIGN, 'epoch')
+    elif tl == 'link':
+        links['t'] = 'tr'
+        files['tr'] = (GFOREIGN, 'older2')
+    elif tl == 'dangling':
+        links['t'] = 'tr'
+    return links, files
+
+
+def g_text_at(case):
+    """buffer text before each step and at the command (the edits prepend one line each)"""
+    text = GC0 if (case['own'] == 'present' and case['layout'] != 'loop') else b''
+    for st in case['steps']:
+        if st[0] == 'edit':
+            text = st[1].encode() + b'\n' + text
+    return text
+
+
+def g_script(case):
+    sc = [b'w !sh s.sh 0']
+    for k, st in enumerate(case['steps']):
+        if st[0] == 'edit':
+            sc += [b'0a', st[1].encode(), b'.']
+        elif st[0] == 'w':
+            sc += [b'ec C03qM%daz' % k, b'w' + st[1].encode(), b'ec C03qM%dbz' % k, b'w !sh s.sh %d' % (k + 1)]
+        else:
+            sc.append(b'w !sh a%d.sh' % k)
+    tgt = b'' if case['tgt'] == 'f' else b' ' + case['tgt'].encode()
+    sc += [b'w !sh s.sh c', b'ec ' + S1, case['cmd'].encode() + tgt, b'ec ' + S2, b'q', b'ec ' + ALIVE, b'q!']
+    return b'\n'.join(sc) + b'\n'
+
+
+def g_act_sh(acts, base):
+    ls = ['cat > /dev/null']
+    for k, (kind, name, stamp) in enumerate(acts):
+        t = g_real_stamp(stamp, base) if stamp else 0
+        if kind == 'write':
+            ls.append("printf 'foreign %d\\nforeign %d\\nforeign %d\\n' > %s 2>/dev/null; touch -c -d @%d %s 2>/dev/null" % (k, k, k, name, t, name))
+        elif kind == 'replace':
+            ls.append("printf 'foreign %d\\nforeign %d\\nforeign %d\\n' > tmp.%d; touch -d @%d tmp.%d; mv -f tmp.%d %s" % (k, k, k, k, t, k, k, name))
+        elif kind == 'touch':
+            ls.append('touch -c -d @%d %s 2>/dev/null' % (t, name))
+        elif kind == 'remove':
+            ls.append('rm -f %s' % name)
+    ls.append('true')
+    return '\n'.join(ls) + '\n'
+
+
+G_SNAP_SH = """cat > /dev/null
+snap() { if [ -e "$1" ]; then stat -L -c %Y "$1" > "snap.$2.$1.m"; cat "$1" > "snap.$2.$1.c"; else echo absent > "snap.$2.$1.m"; fi; }
+snap f $1
+snap t $1
+snap r $1
+mkdir "dir.$1" && cp -P f t r l1 tr "dir.$1"/ 2>/dev/null
+(wc -l < shim.log) > "snap.$1.nlog" 2>/dev/null
+true
+"""
+
+
+def g_dirstate(d):
+    """per name: ['L', target] | bytes | None"""
+    out = []
+    for n in GN:
+        fp = os.path.join(d, n)
+        if os.path.islink(fp):
+            out.append(['L', os.readlink(fp)])
+        elif os.path.exists(fp):
+            out.append(open(fp, 'rb').read())
+        else:
+            out.append(None)
+    return out
+
+
+def g_run(vi, case, timeout=30):
+    d = vlib.case_dir()
+    base = int(time.time())
+    links, files = g_layout(case)
+    for n, (c, st) in files.items():
+        with open(os.path.join(d, n), 'wb') as f:
+            f.write(c)
+        t = g_real_stamp(st, base)
+        os.utime(os.path.join(d, n), (t, t))
+    for n, tg in links.items():
+        os.symlink(tg, os.path.join(d, n))
+        os.utime(os.path.join(d, n), (base - 5000, base - 5000), follow_symlinks=False)
+    with open(os.path.join(d, 's.sh'), 'w') as f:
+        f.write(G_SNAP_SH)
+    for k, st in enumerate(case['steps']):
+        if st[0] == 'acts':
+            with open(os.path.join(d, 'a%d.sh' % k), 'w') as f:
+                f.write(g_act_sh(st[1], base))
+    log = os.path.join(d, 'shim.log')
+    env = {'PATH': '/usr/bin:/bin', 'HOME': d, 'EXINIT': '', 'TERM': 'xterm', 'LINES': '24', 'COLUMNS': '80',
+           'LD_PRELOAD': build_shim(), 'NVSHIM_TARGETS': 'f:t:r:l1:tr', 'NVSHIM_LOG': log, 'NVSHIM_SCHED': ''}
+    p = subprocess.Popen([vi, '-s', '-e', 'f'], stdin=subprocess.PIPE, stdout=subprocess.PIPE, stderr=subprocess.PIPE, cwd=d, env=env,
+                         start_new_session=True)
+    try:
+        out, err = p.communicate(g_script(case), timeout=timeout)
+        rc = p.returncode
+    except subprocess.TimeoutExpired:
+        try:
+            os.killpg(p.pid, 9)
+        except Exception:
+            p.kill()
+        out, err = p.communicate()
+        rc = None
+
+    def rd(n):
+        fp = os.path.join(d, n)
+        try:
+            return open(fp, 'rb').read() if os.path.exists(fp) else None      # follows links, like the property's "file"
+        except OSError:
+            return None
+
+    def snap(tag):
+        sn = {}
+        for n in ('f', 't', 'r'):
+            m = rd('snap.%s.%s.m' % (tag, n))
+            if m is None:
+                return None
+            m = m.strip()
+            sn[n] = None if m == b'absent' else (int(m), rd('snap.%s.%s.c' % (tag, n)))
+        nl = rd('snap.%s.nlog' % tag)
+        sn['nlog'] = int(nl.split()[0]) if nl and nl.split() else 0
+        return sn
+    calls = []
+    if os.path.exists(log):
+        for l in open(log).read().split('\n'):
+            w = l.split()
+            if len(w) >= 4 and w[0] != '-':
+                calls.append({'i': int(w[0]), 'op': w[1], 'name': w[-1]})
+    import re
+    okre = rb'"[^"]*"  \[=\d+\]  \[w\]'
+    ob = {'rc': rc, 'hung': rc is None, 'crash': rc is None or rc < 0 or rc >= 100, 'after': g_dirstate(d), 'before': g_dirstate(os.path.join(d, 'dir.c')),
+          'wafter': rd(case['tgt']), 'own': rd('f'), 'snap0': snap('0'), 'snapc': snap('c'), 'syncs': [], 'calls': calls}
+    for k, st in enumerate(case['steps']):
+        if st[0] == 'w':
+            a, b = b'C03qM%daz' % k, b'C03qM%dbz' % k
+            seg = out.split(a, 1)[1].split(b, 1)[0] if a in out and b in out else b'?'
+            ok = bool(re.search(okre, seg)) and not re.sub(okre, b'', seg).strip()
+            ob['syncs'].append((ok, snap('%d' % (k + 1))))
+    shutil.rmtree(d, ignore_errors=True)
+    seg = out.split(S1, 1)[1] if S1 in out else b''
+    ob['ran'] = S1 in out
+    ob['quit_by_cmd'] = S2 not in seg
+    msg = seg.split(S2, 1)[0]
+    ob['alive'] = ALIVE in seg
+    rest = re.sub(okre, b'', msg)
+    ob['cls'] = 'err' if rest.strip() else 'ok' if rest != msg else 'silent'
+    ob['msg'] = msg[:120].decode('latin-1')
+    return ob
+
+
+def g_oracle(case, ob):
+    """the first sentence of the property (and `success => exactly the lines`, `nothing lost`) on the observables"""
+    if ob['crash']:
+        return ['editor crashed or hung (rc=%s)' % ob['rc']]
+    if not ob['ran'] or ob['snap0'] is None or ob['snapc'] is None:
+        return []                                   # the session did not reach the command (reported by the comparison)
+    bad = []
+    cmd, W = case['cmd'], case['tgt']
+    force = cmd.endswith('!')
+    dirty, si = False, 0
+    for st in case['steps']:
+        if st[0] == 'edit':
+            dirty = True
+        elif st[0] == 'w':
+            if ob['syncs'][si][0]:
+                dirty = False                       # a successful :w of the whole buffer to its own name
+            si += 1
+    text = g_text_at(case)
+    wrote_cmd = not (cmd in ('x', 'x!') and not dirty)
+    # what the editor read or wrote last: the snapshot after the last successful :w of the session, else the one at load
+    sync = ob['snap0']['f']
+    for ok, sn in ob['syncs']:
+        if ok and sn is not None:
+            sync = sn['f']
+    now = ob['snapc'][W]
+    final_calls = ob['calls'][ob['snapc']['nlog']:]
+    reported_ok = ob['cls'] == 'ok' or (ob['quit_by_cmd'] and wrote_cmd)
+    why = None
+    if now is not None and not force and wrote_cmd:
+        if W == 't':
+            why = 'exists and is not the file being edited'
+        elif W == 'f' and sync is None:
+            why = 'exists although the edited name denoted no file when the editor last read or wrote it'
+        elif W == 'f' and now[0] > sync[0]:
+            why = 'is newer (mtime %+d s) than when the editor last read or wrote it' % (now[0] - sync[0])
+    if why:
+        if ob['wafter'] != now[1]:
+            bad.append('a write without ! replaced a file that ' + why)
+        if ob['after'] != ob['before']:
+            bad.append('a write without ! that had to be refused changed the directory (target %s)' % why)
+        if reported_ok:
+            bad.append('a write that had to be refused (target %s) was reported as success (message class %s, quit=%s)' % (why, ob['cls'], ob['quit_by_cmd']))
+        if final_calls:
+            bad.append('a write that had to be refused (target %s) still opened %s' % (why, final_calls[0]['name']))
+    if reported_ok and wrote_cmd and ob['wafter'] != text:
+        bad.append('the command reported success but the file does not hold exactly the written lines')
+    if dirty and (ob['quit_by_cmd'] or not ob['alive']) and ob['own'] != text:
+        bad.append('the editor quit (or a following :q was accepted) although the modified buffer is not in its file')
+    return bad
+
+
+def g_model_request(case):
+    links, files = g_layout(case)
+    ix = {n: i for i, n in enumerate(GN)}
+    steps = ['E@0']
+    text = GC0 if (case['own'] == 'present' and case['layout'] != 'loop') else b''
+    for st in case['steps']:
+        if st[0] == 'edit':
+            text = st[1].encode() + b'\n' + text
+            steps.append('T@' + vlib.hx(text))
+        elif st[0] == 'w':
+            steps.append('W@%s@0@-' % (st[1] or '-'))
+        else:
+            for k, (kind, name, stamp) in enumerate(st[1]):
+                if kind in ('write', 'replace'):
+                    steps.append('F@%s@%d@%s@%d' % (kind[0], ix[name], vlib.hx(g_act_content(k)), G_MODEL_STAMP[stamp]))
+                elif kind == 'touch':
+                    steps.append('F@t@%d@%d' % (ix[name], G_MODEL_STAMP[stamp]))
+                else:
+                    steps.append('F@d@%d' % ix[name])
+    cmd = case['cmd']
+    if cmd in ('w', 'w!'):
+        steps.append('W@%s@%d@-' % ('!' if cmd.endswith('!') else '-', ix[case['tgt']]))
+    else:
+        steps.append('Q@' + cmd)
+    return 'gs names=%d links=%s files=%s steps=%s' % (
+        len(GN), ','.join('%d>%d' % (ix[a], ix[b]) for a, b in links.items()) or '-',
+        ','.join('%d:%s:%d' % (ix[n], vlib.hx(c), G_MODEL_STAMP[st]) for n, (c, st) in files.items()) or '-', ';'.join(steps))
+
+
+def g_compare(case, ob, mline):
+    m = dict(p.split('=', 1) for p in mline.split(' '))
+    diffs = []
+    if not ob['ran']:
+        return ['the session did not reach the command under test']
+    mq = m['q'] == '1'
+    if mq != ob['quit_by_cmd']:
+        diffs.append('quit: model %s editor %s' % (mq, ob['quit_by_cmd']))
+    if not mq and not ob['quit_by_cmd']:
+        mst = 'ok' if m['st'] == 'ok' else 'err'
+        if ob['cls'] != mst and not (ob['cls'] == 'silent' and case['cmd'] in ('x', 'x!')):
+            diffs.append('message class: model %s (%s) editor %s (%r)' % (mst, m['st'], ob['cls'], ob['msg']))
+        if (m['dirty'] == '1') != ob['alive']:
+            diffs.append('following :q refused: model %s editor %s' % (m['dirty'] == '1', ob['alive']))
+    for n, mv, rv in zip(GN, m['dir'].split(','), ob['after']):
+        if mv.startswith('L'):
+            mval = ['L', GN[int(mv[1:])]]
+        else:
+            mval = None if mv == 'absent' else vlib.unhx(mv)
+        if mval != rv:
+            diffs.append('name %s: model %s, editor %s' % (n, g_show(mval), g_show(rv)))
+    return diffs
+
+
+def g_show(v):
+    if v is None:
+        return 'absent'
+    if isinstance(v, list):
+        return 'link to ' + v[1]
+    return '%d bytes %r' % (len(v), v[:24])
+
+
+def g_case(layout, own, sync, acts, dirty, cmd, tgt='f', tlayout='absent'):
+    steps = []
+    if sync.startswith('wrote'):
+        steps += [['edit', 'm1'], ['w', sync[5:]]]
+    if dirty:
+        steps.append(['edit', 'm2'])
+    if acts:
+        steps.append(['acts', [list(a) for a in acts]])
+    return {'stream': 'guard', 'layout': layout, 'own': own, 'tlayout': tlayout, 'steps': steps, 'cmd': cmd, 'tgt': tgt}
+
+
+def guard_cases():
+    out = []
+    for layout, own in (('reg', 'present'), ('reg', 'absent'), ('link', 'present'), ('link', 'absent'), ('chain', 'present'), ('chain', 'absent')):
+        linked = layout != 'reg'
+        actsets = [[], [('write', 'f', 'newer')], [('write', 'f', 'older')], [('replace', 'f', 'newer')], [('touch', 'f', 'newer')],
+                   [('remove', 'f', None)], [('remove', 'f', None), ('write', 'f', 'newer2')]]
+        if own == 'absent':
+            actsets += [[('write', 'f', 'epoch')], [('replace', 'f', 'older')]]
+        else:
+            actsets += [[('touch', 'f', 'older')], [('write', 'f', 'newer'), ('touch', 'f', 'old')]]
+        if linked:
+            actsets += [[('replace', 'r', 'newer')], [('write', 'r', 'newer')], [('remove', 'r', None)]]
+        if layout == 'chain':
+            actsets += [[('replace', 'l1', 'newer')], [('remove', 'l1', None)]]
+        for acts in actsets:
+            for sync in ('read', 'wrote'):
+                for cmd in ('w', 'w!', 'wq', 'x', 'xa'):
+                    out.append(g_case(layout, own, sync, acts, True, cmd))
+                if acts in ([], [('write', 'f', 'newer')], [('replace', 'f', 'newer')]):
+                    for cmd in ('w', 'wq', 'x', 'xa'):
+                        out.append(g_case(layout, own, sync, acts, False, cmd))
+                    for cmd in ('wq!', 'xa!'):
+                        out.append(g_case(layout, own, sync, acts, True, cmd))
+    for sync in ('read', 'wrote', 'wrote!'):
+        for cmd in ('w', 'w!', 'wq', 'x', 'xa'):
+            out.append(g_case('loop', 'absent', sync, [], True, cmd))
+    # another name
+    for layout in ('reg', 'link'):
+        for tl in ('absent', 'reg', 'epoch', 'link', 'dangling'):
+            for acts in ([], [('write', 't', 'newer')], [('replace', 't', 'older')], [('remove', 't', None)], [('touch', 't', 'newer2')]):
+                for cmd in ('w', 'w!'):
+                    out.append(g_case(layout, 'present', 'read', acts, True, cmd, tgt='t', tlayout=tl))
+    for sync in ('read', 'wrote'):
+        for acts in ([], [('write', 'r', 'newer')]):
+            for cmd in ('w', 'w!'):
+                out.append(g_case('link', 'present', sync, acts, True, cmd, tgt='r'))
+    return out
+
+
+def guard_random(rng, n):
+    """random sessions: layout, 1..3 rounds of (foreign operations | :w | :w! | edit), then the command"""
+    out = []
+    for _ in range(n):
+        layout = rng.choice(['reg', 'link', 'link', 'chain'])
+        own = rng.choice(['present', 'absent'])
+        names = ['f'] if layout == 'reg' else ['f', 'f', 'r'] if layout == 'link' else ['f', 'f', 'r', 'l1']
+        steps = []
+        ne = 0
+        for _r in range(rng.range(1, 4)):
+            k = rng.below(10)
+            if k < 5:
+                acts = []
+                for _a in range(rng.range(1, 3)):
+                    kind = rng.choice(['write', 'write', 'replace', 'touch', 'remove'])
+                    acts.append([kind, rng.choice(names), None if kind == 'remove' else rng.choice(['older', 'epoch', 'newer', 'newer', 'newer2'])])
+                steps.append(['acts', acts])
+            elif k < 7:
+                steps.append(['w', rng.choice(['', '', '!'])])
+            else:
+                ne += 1
+                steps.append(['edit', 'e%d' % ne])
+        if rng.chance(3, 4):
+            ne += 1
+            steps.insert(rng.below(len(steps) + 1), ['edit', 'e%d' % ne])
+        out.append({'stream': 'guard', 'layout': layout, 'own': own, 'tlayout': 'absent', 'steps': steps,
+                    'cmd': rng.choice(['w', 'w', 'w!', 'wq', 'x', 'xa', 'wq!', 'xa!']), 'tgt': 'f'})
+    return out
+
+
 def run(ctx):
     res = ctx.res
     rng = ctx.rng
@@ -418,10 +814,13 @@ def run(ctx):
                 'dry-run sequence x {ENOSPC, EIO, EINTR, short 1, short n-1}, plus 2-5 consecutive faults inside one write batch (short counts then errors); '
                 'cases = single commands, multi-command histories (writes to another path / range / filter before the guarded write), two buffers; non-trivial = a fault was injected and consumed, or a guard case; distinct = distinct (case, fault)')
     work = []          # (case, sched)
+    gwork = []         # cases of the guard stream (no faults)
     if ctx.replay:
         rp = json.load(open(ctx.replay))
         inp = rp.get('input') or {}
-        if 'case' in inp:
+        if 'case' in inp and inp['case'].get('stream') == 'guard':
+            gwork.append(inp['case'])
+        elif 'case' in inp:
             work.append((inp['case'], [tuple(s) for s in inp.get('sched', [])]))
     else:
         cdir = os.path.join(vlib.VERIF, 'corpus')
@@ -429,7 +828,12 @@ def run(ctx):
             if fn.startswith('C03-') and fn.endswith('.json'):
                 c = json.load(open(os.path.join(cdir, fn)))
                 c = c.get('input', c)
-                work.append((c['case'], [tuple(s) for s in c.get('sched', [])]))
+                if c['case'].get('stream') == 'guard':
+                    gwork.append(c['case'])
+                else:
+                    work.append((c['case'], [tuple(s) for s in c.get('sched', [])]))
+        gwork += guard_cases()
+        gwork += guard_random(rng.fork('guard sessions'), 160 if ctx.quick else 3000)
         bases = base_cases()
         dry = vlib.pmap(lambda c: run_case(vi, c, []), bases)
         strata = {}        # (command, history kind, single/multi fault) -> schedules
@@ -520,6 +924,67 @@ def run(ctx):
         if i % 97 == 0:
             res.sample({'case': case, 'sched': [list(s) for s in sched], 'class': ob['cls'], 'quit': ob['quit_by_cmd'], 'q_refused': ob['alive'], 'calls': len(ob['calls'])})
     res.extra['editor_runs'] = len(work)
+    run_guard(ctx, vi, model, gwork)
+
+
+def run_guard(ctx, vi, model, gwork):
+    """the guard stream: editor sessions with foreign writers; oracle on the snapshots, comparison with the model"""
+    res = ctx.res
+    if not gwork:
+        return
+
+    def one(case):
+        ob = g_run(vi, case)
+        if ob['crash']:
+            ob = g_run(vi, case, timeout=90)
+        return ob
+    obs = vlib.pmap(one, gwork)
+    out_m = None
+    if model:
+        from props import c01
+        reqs = [g_model_request(c) for c in gwork]
+        rc, out_m, err = c01.run_model(model, reqs)
+        if rc != 0 or len(out_m) != len(reqs):
+            res.disagree({'what': 'model driver failed on the guard stream: rc=%d, %d answers for %d requests' % (rc, len(out_m), len(reqs)), 'stderr': err[-800:]})
+            out_m = None
+    nref = 0
+    for i, (case, ob) in enumerate(zip(gwork, obs)):
+        res.evaluations += 1
+        acts = [a for st in case['steps'] if st[0] == 'acts' for a in st[1]]
+        res.count('guard cmd ' + case['cmd'])
+        res.count('guard name: %s, %s at load' % ({'reg': 'regular', 'link': 'symbolic link', 'chain': 'chain of two links', 'loop': 'link loop'}[case['layout']], case['own']))
+        res.count('guard target: ' + ('own name' if case['tgt'] == 'f' else 'the real file behind the edited link' if case['tgt'] == 'r' else 'other name (%s)' % case['tlayout']))
+        res.count('guard foreign: ' + (' + '.join('%s %s%s' % (k, n, ' ' + s if s else '') for k, n, s in acts) if len(acts) <= 2 else '%d operations' % len(acts) if acts else 'nothing'))
+        if any(st[0] == 'w' for st in case['steps']):
+            res.count('guard: session with an earlier :w of the buffer')
+        if ob['cls'] == 'err' and not ob['quit_by_cmd']:
+            nref += 1
+        res.nontriv('g%d' % i)
+        bad = g_oracle(case, ob)
+        if bad:
+            res.violation({'what': bad[0], 'all': bad, 'input': {'case': case},
+                           'expected': {'refused': True, 'directory': [g_show(v) for v in ob['before']]} if 'refused' in bad[0] or 'without !' in bad[0] else {'file': clip(g_text_at(case))},
+                           'observed': {'class': ob['cls'], 'message': ob['msg'], 'quit_by_command': ob['quit_by_cmd'], 'q_refused': ob['alive'],
+                                        'directory': [g_show(v) for v in ob['after']], 'snapshot_at_load': g_snapshow(ob['snap0']), 'snapshot_before_command': g_snapshow(ob['snapc'])},
+                           'script': g_script(case).decode('latin-1'),
+                           'layout': {'links': g_layout(case)[0], 'files': {n: st for n, (c, st) in g_layout(case)[1].items()}}})
+            continue
+        if out_m is not None:
+            diffs = g_compare(case, ob, out_m[i])
+            if diffs:
+                res.disagree({'what': 'model and editor differ (guard stream): ' + '; '.join(diffs), 'input': {'case': case}, 'model': out_m[i][:300],
+                              'implementation': {'class': ob['cls'], 'message': ob['msg'], 'quit': ob['quit_by_cmd'], 'alive': ob['alive'],
+                                                 'directory': [g_show(v) for v in ob['after']]}})
+        if i % 211 == 0:
+            res.sample({'case': case, 'class': ob['cls'], 'quit': ob['quit_by_cmd'], 'q_refused': ob['alive'], 'directory': [g_show(v) for v in ob['after']]})
+    res.extra['guard_stream_sessions'] = len(gwork)
+    res.extra['guard_stream_refused'] = nref
+
+
+def g_snapshow(sn):
+    if sn is None:
+        return None
+    return {n: ('absent' if sn[n] is None else {'mtime': sn[n][0], 'bytes': None if sn[n][1] is None else len(sn[n][1])}) for n in ('f', 't', 'r')}
 
 
 def clip(b, n=120):
